@@ -13,6 +13,7 @@ import (
 	"verif/harness/core"
 	"verif/harness/env"
 	"verif/harness/keys"
+	"verif/harness/sim"
 	"verif/harness/spsim"
 	"verif/harness/verify"
 )
@@ -72,6 +73,16 @@ func c04Callback(r *core.Run, idx int, rng *rand.Rand) {
 		case "alg_md5":
 			sc.Opts.SigAlg, sc.Opts.NoSigAlg = "http://www.w3.org/2001/04/xmldsig-more#rsa-md5", true
 		}
+	}
+	if idx%11 == 7 {
+		// a user with several kilobytes of poorly compressible data: the message no longer fits into a short URL
+		n := 150 + rng.Intn(500)
+		vals := make([]string, n)
+		for i := range vals {
+			vals[i] = "U_" + strings.ToUpper(canary) + "g" + randHex(rng, 16)
+		}
+		sc.U.Custom = append(sc.U.Custom, sim.Custom{Name: "groups", Format: basicFormat, Values: vals})
+		r.Count("bulky_user_records", 1)
 	}
 	e := sc.build()
 	// the certificate the IdP publishes: metadata KeyDescriptor == certificate endpoint
